@@ -1,6 +1,6 @@
 """C17 -- triangular matrix product equals the general product of triangular operands."""
 import random
-from ..core import Case, TU, chunk, std_configs, width
+from ..core import Case, TU, chunk, std_configs, width, Cfg
 
 ID = 'C17'
 TYPES = [('float', 'f32'), ('double', 'f64'), ('int', 'i32'), ('long', 'i64')]
@@ -52,7 +52,12 @@ def generate(seed, tier):
     allc = [cases[k] for k in sorted(cases)]
     rnd.shuffle(allc)
     tus = [TU('c17_%03d' % i, ch, headers=['vp_c17.h']) for i, ch in enumerate(chunk(allc, 40))]
-    return tus, std_configs(tier)
+    cfgs = std_configs(tier)
+    if not quick:
+        for m in ('FASTOR_MATMUL_OUTER_BLOCK_SIZE=1', 'FASTOR_MATMUL_OUTER_BLOCK_SIZE=3', 'FASTOR_MATMUL_INNER_BLOCK_SIZE=1', 'FASTOR_MATMUL_INNER_BLOCK_SIZE=3'):
+            for isa in ('avx2', 'avx512'):
+                cfgs.append(Cfg(isa, '14', 'O2', macros=(m,), only_tus='c17_00*'))
+    return tus, cfgs
 
 
 TECHNIQUE = 'runtime monitoring: reference-model oracle (naive general product, exact small-integer regime + forward-bound regime) over generated (shape, tag pair) instantiations, painted/framed destination, ASan/UBSan, per-ISA builds'
